@@ -15,7 +15,7 @@ import (
 func init() {
 	register(&Prop{
 		ID:          "C18",
-		Explanation: "Decides where cookie attributes can come from: http.Cookie values are allocated only in MakeCookieFromOptions, copyCookie and the name validator; every argument of http.SetCookie derives from MakeCookieFromOptions (directly, through the makeCookie wrappers, splitCookie or copyCookie) and no Set-Cookie header is written by hand; in the constructor Path, HttpOnly, Secure, SameSite are wired from the same-named options (SameSite through ParseSameSite), Name and Value from the parameters, and Domain is GetCookieDomain(req, opts.Domains) or, only when that is empty and domains are configured, the last configured domain; GetCookieDomain returns an element of the list only under HasSuffix(request host, element), scanning in list order; fields of an existing cookie are stored only by the constructors, splitCookie (Name, Value) and joinCookies (Name, Value); copyCookie copies every attribute field of http.Cookie; deletions reuse the setter's name expression and options and the cookie store deletes each presented cookie under its presented name (shared with C11); validation sorts the configured domains longest-first and nothing reorders or writes that list afterwards. Added during the build: the request host is compared with cookie domains only after its port was removed, in the selector as in the warning helper (R6). Round 3: every WithContext/Clone of the inbound request keeps a context derived from its own Context() (R7). Round 4: request-reachable code never writes a field of the shared options.Cookie (R8, shared with C09.R9). Round 6: GetRequestHost returns the forwarded-host header value or req.Host itself, unmodified (R9); the Set-Cookie lines queued on a response are never deleted or reassigned by hand (under R1). Round 7: request handling keeps no state of its own between requests — no store, map update, in-place builtin, atomic/sync.Map write or pointer-receiver library call (singleflight, caches) reached from ServeHTTP targets a package-level variable, an object built at start-up, or a constructor variable captured by the handler it returned, declared in the packages implementing this property (RS; a class-wide who-may-write rule with zero instances today: a correct memoisation would be reported until reviewed). The session cookie is sent unsplit only where the length of its whole Set-Cookie line was found within the threshold (R10, shared with C10.R5).",
+		Explanation: "Decides where cookie attributes can come from: http.Cookie values are allocated only in MakeCookieFromOptions, copyCookie and the name validator; every argument of http.SetCookie derives from MakeCookieFromOptions (directly, through the makeCookie wrappers, splitCookie or copyCookie) and no Set-Cookie header is written by hand; in the constructor Path, HttpOnly, Secure, SameSite are wired from the same-named options (SameSite through ParseSameSite), Name and Value from the parameters, and Domain is GetCookieDomain(req, opts.Domains) or, only when that is empty and domains are configured, the last configured domain; GetCookieDomain returns an element of the list only under HasSuffix(request host, element), scanning in list order; fields of an existing cookie are stored only by the constructors, splitCookie (Name, Value) and joinCookies (Name, Value); copyCookie copies every attribute field of http.Cookie; deletions reuse the setter's name expression and options and the cookie store deletes each presented cookie under its presented name (shared with C11); validation sorts the configured domains longest-first and nothing reorders or writes that list afterwards. Added during the build: the request host is compared with cookie domains only after its port was removed, in the selector as in the warning helper (R6). Round 3: every WithContext/Clone of the inbound request keeps a context derived from its own Context() (R7). Round 4: request-reachable code never writes a field of the shared options.Cookie (R8, shared with C09.R9). Round 6: GetRequestHost returns the forwarded-host header value or req.Host itself, unmodified (R9); the Set-Cookie lines queued on a response are never deleted or reassigned by hand (under R1). Round 7: request handling keeps no state of its own between requests — no store, map update, in-place builtin, atomic/sync.Map write or pointer-receiver library call (singleflight, caches) reached from ServeHTTP targets a package-level variable, an object built at start-up, or a constructor variable captured by the handler it returned, declared in the packages implementing this property (RS; a class-wide who-may-write rule with zero instances today: a correct memoisation would be reported until reviewed). The session cookie is sent unsplit only where the length of its whole Set-Cookie line was found within the threshold (R10, shared with C10.R5). Round 8: X-Forwarded-Host is read only by the guarded accessor GetRequestHost — no middleware inspects, rewrites or drops it first (R11, shared with C16.R1).",
 		NotDecided:  "the 4096-byte bound (arithmetic over sizes), suffix-match semantics of domain selection including host-with-port (values), what http.Cookie.String() emits.",
 		Run:         runC18,
 	})
